@@ -272,6 +272,21 @@ def space_alldiff(idx):
     return tuple(ds), [("alldiff", tuple(range(nv)))]
 
 
+AD4_DOMS = ((1, 3), (1, 4), (0, 2), (2, 4), (2, 2))
+
+
+def space_alldiff4(idx):
+    """all_different over four (then five) variables with domains of three to four values: models in which a value of one
+    variable is in its domain, survives propagation, and still extends to no solution"""
+    if idx < 5**4:
+        return tuple(AD4_DOMS[x] for x in digits(idx, 5, 4)), [("alldiff", (0, 1, 2, 3))]
+    return tuple(AD4_DOMS[x] for x in digits(idx - 5**4, 5, 5)), [("alldiff", (0, 1, 2, 3, 4))]
+
+
+def size_alldiff4():
+    return 5**4 + 5**5
+
+
 WIDE_DOMS = ((0, 1), (0, 2), (1, 2))
 
 
